@@ -94,7 +94,8 @@ def main(ctx):
               "reached:closeframe_sent", "reached:own_drop_delivered", "reached:data_after_our_close_ignored",
               "reached:sendclose_while_closing", "reached:connecting_lost",
               "reached:deferred_onconnect_resolved_late", "reached:queued_write",
-              "reached:frames_behind_peer_close", "reached:prepared_message", "reason_cases", "code_cases", "code_echoed", "code_rejected"):
+              "reached:frames_behind_peer_close", "reached:prepared_message", "reason_cases", "code_cases", "code_echoed", "code_rejected",
+              "close_inside_open_text_message"):
         ctx.require(n)
 
 
@@ -704,6 +705,12 @@ def job_codes(a):
     for code in range(a["lo"], a["hi"]):
         ep = ws.open_endpoint(role, {"echoCloseCodeReason": echo, "failByDrop": fbd})
         start = len(ep.t.written)
+        if code % 4 == 1:
+            # the close frame arrives INSIDE a fragmented text message whose first fragment ends in
+            # the middle of a multi-octet character (legal: control frames may be interleaved); the
+            # close reason is judged on its own
+            ep.feed(F.encode(1, b"caf\xc3", fin=False, mask=mask))
+            stats["close_inside_open_text_message"] = stats.get("close_inside_open_text_message", 0) + 1
         ep.feed(F.encode(8, struct.pack("!H", code) + b"r", mask=mask))
         ep.conn.settle()
         if ep.conn.own_drop_pending():
